@@ -652,11 +652,36 @@ func (c *Ctx) checkTagRegistry(r *Report, reg, val *ssa.Function) {
 				}
 			}
 			s := strings.Join(shape, " ")
+			for i, pn := range []string{"mainType", "subType", "action"} {
+				if i < len(bt.Params) {
+					s = strings.ReplaceAll(s, "param:"+bt.Params[i].Name(), "param:"+pn)
+				}
+			}
 			if s != `"_" param:mainType "_" param:subType` && s != `"_" param:mainType "_" param:subType "_" param:action` {
 				okAll = false
 				r.Fail("C18.register:BuildTag", c.instrPos(ret), "built tag shape is [%s]", s)
 			}
 		})
+		// the builder refuses only an empty subType: any further refusal rejects names the validator accepts
+		nPanic, nOK := 0, 0
+		eachInstr(bt, func(in ssa.Instruction) {
+			if _, isP := in.(*ssa.Panic); !isP {
+				return
+			}
+			nPanic++
+			gs := guardsOfInstr(in)
+			if len(gs) == 1 {
+				if b, isB := gs[0].Cond.(*ssa.BinOp); isB && b.Op == token.EQL && gs[0].Polarity && b.X == ssa.Value(bt.Params[1]) {
+					if k, isK := constString(b.Y); isK && k == "" {
+						nOK++
+					}
+				}
+			}
+		})
+		if nPanic != nOK {
+			okAll = false
+			r.Fail("C18.register:BuildTag#refusals", c.pos(bt.Pos()), "BuildTag panics under a condition other than an empty subType (%d of %d panic sites): names that the validator accepts are refused by the app/biz/rpc helpers", nPanic-nOK, nPanic)
+		}
 		if okAll && n == 2 {
 			r.OK("C18.register:BuildTag", "two shapes: _main_sub and _main_sub_action")
 		} else if okAll {
